@@ -50,6 +50,13 @@ def run_case(c, rng):
                          p_power_pump=0.03, n_junc=(2, 8) if c.tier == 'quick' else (2, 16))
     if rng.random() < 0.4:
         gnet.add_isolation_schedule(spec, rng, with_leak=0.3)
+    # EPANET's UNBALANCED option as the example files set it (Net1, Net3: CONTINUE 10) - it means nothing to the WNTRSimulator,
+    # which stops at a step it cannot solve whatever the option says.  Side stream: the main stream stays what it was.
+    import random as _random
+    side = _random.Random(c.index * 7919 + len(spec['junctions']))
+    if side.random() < 0.4:
+        spec['options']['extra_hydraulic'] = dict(spec['options'].get('extra_hydraulic') or {}, unbalanced='CONTINUE', unbalanced_value=side.choice([10, 0, 2]))
+        c.count('unbalanced_continue_cases')
     sample = {'spec': spec}
     c.sample = {'spec_summary': gnet.signature(spec)}
     wn = gnet.build(spec)
